@@ -382,6 +382,61 @@ def rule_slice(ctx, prop):
         rep.floor("panicking index operations examined", n, 1, cfg)
     return rep
 
+
+def rule_parse_input(ctx, prop):
+    """what is parsed is the caller's text, byte for byte, under the syntax the configuration names"""
+    from paths import access_path, Enumerator, TooManyPaths
+    rep = Report(prop, "R-PARSE(input)", "format_code parses its `code` argument itself (no rewritten copy: range offsets and "
+                                         "out-of-range text refer to the caller's bytes) with the syntax converted name for name "
+                                         "from config.syntax")
+    for cfg, prog in ctx.programs.items():
+        f = prog.fn("stylua_lib", "format_code")
+        if not rep.anchor(f is not None, "format_code", cfg):
+            continue
+        pcs = [(b, t) for b, t in f.calls() if re.search(r"full_moon::parse(_fallible)?$", callee(t))]
+        for b, t in pcs:
+            root, steps = access_path(f, t["args"][0])
+            ok = root == ("arg", 1) and not [s_ for s_ in steps if s_[0] in ("f", "v")]
+            via = sorted(c.split("::")[-1] for c in prov_calls(provenance(f, t["args"][0], through=None)))
+            rep.inst(f"{f.key} parses its own `code` argument", {"via": via}, cfg, ok=ok)
+            if not ok:
+                rep.violation(f"{f.key} parsed-text-is-not-the-input via={','.join(via)[:40] or 'local'}",
+                              f"format_code hands the parser a text derived through {via or 'a local value'} instead of its `code` "
+                              f"argument: byte offsets of the formatting range no longer refer to what is parsed, and statements "
+                              f"outside the range are reproduced from the rewritten copy, not from the caller's text", f.loc(t["sp"]), cfg)
+        # the syntax conversion: variant X -> full_moon::LuaVersion::x(), All -> new()
+        conv = None
+        for g in prog.fns("stylua_lib"):
+            if re.search(r"From<LuaVersion>.*full_moon.*LuaVersion.*::from$|<full_moon::(ast::)?(version::)?LuaVersion as .*From<LuaVersion>>::from$", g.path) \
+                    or (g.path.endswith("::from") and g.impl_trait and "From" in g.impl_trait and g.locals[0].endswith("full_moon::LuaVersion")
+                        and g.argc == 1 and g.locals[1].endswith("LuaVersion") and "full_moon" not in g.locals[1]):
+                conv = g
+        if not rep.anchor(conv is not None, "From<LuaVersion> for full_moon::LuaVersion", cfg):
+            continue
+        try:
+            res = Enumerator(conv, summaries=False, max_paths=200).run()
+        except TooManyPaths:
+            rep.anchor(False, "LuaVersion conversion: too many paths", cfg)
+            continue
+        n = 0
+        for st in res:
+            vs = [v for k, v in st.hist if isinstance(v, str) and (v == "All" or v.startswith("Lua"))]
+            if not vs:
+                continue
+            variant = vs[-1]
+            ctor = [c.split("::")[-1] for _, c, _ in st.calls if re.search(r"full_moon::.*LuaVersion::[a-z0-9_]+$", c)]
+            want = "new" if variant == "All" else variant.lower()
+            n += 1
+            ok = ctor == [want]
+            rep.inst(f"{conv.key} {variant} -> full_moon::LuaVersion::{want}()", {"got": ctor}, cfg, ok=ok)
+            if not ok:
+                rep.violation(f"{conv.key} syntax-conversion {variant}->{','.join(ctor) or 'nothing'}",
+                              f"config.syntax = {variant} is converted to full_moon::LuaVersion::{ctor or '?'}() instead of {want}(): the "
+                              f"input is parsed (and the output re-parsed) under another grammar than the one configured, so text "
+                              f"that is not valid {variant} is accepted and returned as a success", conv.loc(), cfg)
+        rep.floor("syntax conversion arms", n, 2, cfg)
+    return rep
+
 def run(ctx):
     reps = r_exh.run_exh(ctx, "C07")
     reps.append(rule_parse(ctx, "C07"))
@@ -398,4 +453,5 @@ def run(ctx):
     import r_raw
     reps.append(r_raw.rule_once(ctx, "C07"))
     reps.append(rule_slice(ctx, "C07"))
+    reps.append(rule_parse_input(ctx, "C07"))
     return reps
